@@ -223,7 +223,8 @@ def main(argv=None):
         code = 3
     finally:
         import shutil
-        shutil.rmtree(workdir, ignore_errors=True)
+        if not os.environ.get("VERIF_KEEP_WORK"):
+            shutil.rmtree(workdir, ignore_errors=True)
 
     sys.exit(code)
 
@@ -273,8 +274,12 @@ def _main(prop, args, t0, workdir):
             json.dump(units[i::W], f)
         outfile = os.path.join(workdir, f'out{i}.json')
         cmd = [PY, '-X', 'faulthandler', '-m', 'vlib.worker', prop, 'units', tier, str(seed), str(i), str(W), repr(deadline), infile, outfile]
-        p = subprocess.Popen(cmd, env=env, cwd=VERIF, stdout=subprocess.PIPE, stderr=subprocess.STDOUT, start_new_session=True)
-        procs.append((p, outfile))
+        # worker output goes to a file, never to a pipe: a worker that prints more than a pipe buffer while the driver waits for
+        # another worker would block until its turn and lose its time budget
+        logfile = os.path.join(workdir, f'log{i}.txt')
+        with open(logfile, 'wb') as lf:
+            p = subprocess.Popen(cmd, env=env, cwd=VERIF, stdout=lf, stderr=subprocess.STDOUT, stdin=subprocess.DEVNULL, start_new_session=True)
+        procs.append((p, outfile, logfile))
     # reproducers of ledger entries run concurrently with the workers
     findings = load_findings(prop)
     repro_procs = []
@@ -282,39 +287,49 @@ def _main(prop, args, t0, workdir):
         fid = e['id']
         if fid in getattr(mod, 'REPRODUCERS', {}):
             outfile = os.path.join(workdir, f'repro-{fid}.json')
-            p = subprocess.Popen([PY, '-X', 'faulthandler', '-m', 'vlib.worker', prop, 'repro', fid, outfile], env=env, cwd=VERIF,
-                                 stdout=subprocess.PIPE, stderr=subprocess.STDOUT, start_new_session=True)
-            repro_procs.append((e, p, outfile))
+            logfile = os.path.join(workdir, f'repro-{fid}.log.txt')
+            with open(logfile, 'wb') as lf:
+                p = subprocess.Popen([PY, '-X', 'faulthandler', '-m', 'vlib.worker', prop, 'repro', fid, outfile], env=env, cwd=VERIF,
+                                     stdout=lf, stderr=subprocess.STDOUT, stdin=subprocess.DEVNULL, start_new_session=True)
+            repro_procs.append((e, p, outfile, logfile))
 
     grace = getattr(mod, 'GRACE_S', 120)
     results, worker_failures = [], []
-    for i, (p, outfile) in enumerate(procs):
+    def _tail(path, n):
         try:
-            out, _ = p.communicate(timeout=max(5, deadline + grace - time.time()))
-            rc = p.returncode
+            with open(path, 'rb') as f:
+                f.seek(0, 2)
+                f.seek(max(0, f.tell() - n))
+                return f.read().decode(errors='replace')
+        except OSError:
+            return ''
+
+    for i, (p, outfile, logfile) in enumerate(procs):
+        try:
+            rc = p.wait(timeout=max(5, deadline + grace - time.time()))
         except subprocess.TimeoutExpired:
             try:
                 os.killpg(p.pid, signal.SIGKILL)
             except ProcessLookupError:
                 pass
-            out, _ = p.communicate()
+            p.wait()
             rc = 'timeout'
         if rc == 0 and os.path.exists(outfile):
             results.append(json.load(open(outfile)))
         else:
-            worker_failures.append(f'worker {i} rc={rc}: {out.decode(errors="replace")[-1200:]}')
+            worker_failures.append(f'worker {i} rc={rc}: {_tail(logfile, 1200)}')
     repro = {}
-    for e, p, outfile in repro_procs:
+    for e, p, outfile, logfile in repro_procs:
         try:
-            out, _ = p.communicate(timeout=getattr(mod, 'REPRO_TIMEOUT_S', 300))
+            p.wait(timeout=getattr(mod, 'REPRO_TIMEOUT_S', 300))
             ok = p.returncode == 0 and os.path.exists(outfile)
-            repro[e['id']] = json.load(open(outfile)) if ok else dict(fails=None, what='reproducer worker failed: ' + out.decode(errors='replace')[-400:])
+            repro[e['id']] = json.load(open(outfile)) if ok else dict(fails=None, what='reproducer worker failed: ' + _tail(logfile, 400))
         except subprocess.TimeoutExpired:
             try:
                 os.killpg(p.pid, signal.SIGKILL)
             except ProcessLookupError:
                 pass
-            p.communicate()
+            p.wait()
             # a reproducer that runs into the hard wall timeout: only meaningful for entries whose failure mode is non-termination
             repro[e['id']] = dict(fails=True if e.get('failure_mode') == 'hang' else None, what='reproducer hit the wall-clock watchdog')
 
